@@ -130,6 +130,17 @@ def _returned_expr(fn: pf.FuncDef) -> List[ast.expr]:
                 outs.extend(ds if ds else [r])
             else:
                 outs.append(r)
+    # a value served from a memo (`return S[k]` / `S.get(k)`): what the function stores into S is what it returns
+    for r in list(outs):
+        base = None
+        if isinstance(r, ast.Subscript):
+            base = r.value
+        elif isinstance(r, ast.Call) and isinstance(r.func, ast.Attribute) and r.func.attr == 'get':
+            base = r.func.value
+        if base is not None and not (isinstance(base, ast.Name) and base.id in W.param_names(fn)):
+            for n in pf.walk_shallow(fn):
+                if isinstance(n, ast.Assign) and len(n.targets) == 1 and isinstance(n.targets[0], ast.Subscript) and pf.nsrc(n.targets[0].value) == pf.nsrc(base):
+                    outs.append(pf.resolve_expr(fn, n.value))
     return outs
 
 
@@ -224,10 +235,14 @@ def _r2_r3(ctx: Ctx, m: pf.Module, classes: Dict[str, ast.ClassDef]) -> int:
                     if isinstance(cur, (ast.DictComp, ast.ListComp, ast.GeneratorExp, ast.SetComp)):
                         comp = cur
                         break
-                ok = (isinstance(key, ast.Name) and comp is not None and len(comp.generators) == 1
-                      and pf.nsrc(comp.generators[0].iter) in ('self.items()', 'self._field_types.items()')
-                      and isinstance(comp.generators[0].target, ast.Tuple) and isinstance(comp.generators[0].target.elts[0], ast.Name)
-                      and comp.generators[0].target.elts[0].id == key.id)
+                g0 = comp.generators[0] if comp is not None and len(comp.generators) == 1 else None
+                ok = (isinstance(key, ast.Name) and g0 is not None
+                      and pf.nsrc(g0.iter) in ('self.items()', 'self._field_types.items()')
+                      and isinstance(g0.target, ast.Tuple) and isinstance(g0.target.elts[0], ast.Name)
+                      and g0.target.elts[0].id == key.id)
+                # iteration over the field names alone
+                ok = ok or (isinstance(key, ast.Name) and g0 is not None and isinstance(g0.target, ast.Name) and g0.target.id == key.id
+                            and pf.nsrc(g0.iter) in ('self._field_types', 'self.keys()', 'self._field_types.keys()', 'self.fields', 'self._fields', 'self'))
                 if not ok:
                     bad = node
             ctx.check(bad is None, 'R2', cons, f'writer keys the object by field name over the field table, reader indexes it by `{pf.nsrc(bad) if bad is not None else ""}` '
@@ -265,6 +280,11 @@ def _r2_r3(ctx: Ctx, m: pf.Module, classes: Dict[str, ast.ClassDef]) -> int:
             continue
         vc = W.value_class(W.value_class_of_call(ctor))
         xw = W.param_names(wfn)[1]
+        # parameters of the type that the rebuilt value carries (reference genome of a locus, point type of an interval) come from the decoding type
+        for prm_, ok_, what_ in W.type_params_passed(classes, cname, rfn, ctor, vc):
+            ctx.check(ok_, 'R3', f'{F}::{cname}.{FROM}::{vc.name}({prm_}=) comes from the type',
+                      f'{cname}.{FROM} builds the {vc.name} with {prm_} = {what_} instead of self.{prm_}: the wire form does not carry the {prm_}, so a value of '
+                      f'{cname}<X> is read back with another {prm_} and compares unequal', m.path, ctor.lineno, detail={'param': prm_})
         for k in sorted(wk ^ rk):
             ctx.ok('R3', f'{F}::{cname}::role of json key {k!r}', 'not comparable: key exists on one side only (reported under R2)', nontrivial=False)
         for k in sorted(wk & rk):
@@ -643,13 +663,14 @@ class _Path:
         return _Path(self.conds + tuple(conds), self.roles | frozenset(roles), end or self.end)
 
 
-def _paths(fn: pf.FuncDef, names: Tuple[str, ...]) -> List[_Path]:
-    """Feasible-by-syntax paths of a converter: branch decisions taken and the component roles whose converter (one of `names`) is applied."""
+def _paths(fn: pf.FuncDef, names: Tuple[str, ...], include_self: bool = False) -> List[_Path]:
+    """Feasible-by-syntax paths of a converter: branch decisions taken and the component roles whose converter (one of `names`) is applied.
+    include_self: also count `self.<converter>(...)` (role 'self') - used for the base-class entry points."""
     where = f'{F}::{fn.name}'
 
     def is_conv(e: ast.AST) -> bool:
         return (isinstance(e, ast.Call) and isinstance(e.func, ast.Attribute) and e.func.attr in names
-                and pf.nsrc(e.func.value) not in ('self', 'super()'))
+                and (include_self or pf.nsrc(e.func.value) not in ('self', 'super()')))
 
     def has_conv(e: ast.AST) -> bool:
         return any(is_conv(x) for x in ast.walk(e))
@@ -779,17 +800,51 @@ def _float_tokens_note(classes: Dict[str, ast.ClassDef], cname: str) -> str:
     return ''
 
 
+def _split_conds(T: W.TypeTables, conds) -> List[Tuple[ast.AST, bool]]:
+    """`a and b` taken / `a or b` not taken: every operand holds / fails - unless the whole test is one guard on one subject."""
+    out: List[Tuple[ast.AST, bool]] = []
+    for test, pol in conds:
+        if T.guard(test) is None:
+            t, p2 = test, pol
+            while isinstance(t, ast.UnaryOp) and isinstance(t.op, ast.Not):
+                t, p2 = t.operand, not p2
+            if isinstance(t, ast.BoolOp) and ((isinstance(t.op, ast.And) and p2) or (isinstance(t.op, ast.Or) and not p2)):
+                out += _split_conds(T, [(v, p2) for v in t.values])
+                continue
+            out.append((t, p2))
+        else:
+            out.append((test, pol))
+    return out
+
+
+def _type_guard(T: W.TypeTables, fn: pf.FuncDef, test: ast.AST) -> Optional[Tuple[str, frozenset, Optional[str]]]:
+    """(component role, admitted classes, dead reason) of a test on a component type; `all(G(t) for t in <field types>)` bounds every field."""
+    g = T.guard(test)
+    if g is not None:
+        return _role(fn, g.subject), g.admitted, g.dead
+    if isinstance(test, ast.Call) and pf.dotted(test.func) == 'all' and len(test.args) == 1 and isinstance(test.args[0], (ast.GeneratorExp, ast.ListComp)) \
+            and len(test.args[0].generators) == 1 and not test.args[0].generators[0].ifs:
+        gen = test.args[0].generators[0]
+        inner = T.guard(test.args[0].elt)
+        if inner is not None and isinstance(inner.subject, ast.Name) and any(isinstance(x, ast.Name) and x.id == inner.subject.id for x in ast.walk(gen.target)) \
+                and pf.nsrc(gen.iter) in FIELD_TABLES:
+            return 'fields', inner.admitted, inner.dead
+    return None
+
+
 def _r9(ctx: Ctx, m: pf.Module, classes: Dict[str, ast.ClassDef]):
     T = W.TypeTables(m, classes)
     base = W.methods(m.cls('HailType'))
     n_inst = 0
-    for cname, c in classes.items():
+    todo = list(classes.items()) + [('HailType', m.cls('HailType'))]
+    for cname, c in todo:
         ms = W.methods(c)
         sides = {}
-        for meth, side in ((TO, 'w'), (TO_NA, 'w'), (FROM, 'r'), (FROM_NA, 'r')):
-            if meth in ms:
+        is_base = cname == 'HailType'
+        for meth, side in ((TO, 'w'), (TO_NA, 'w'), (FROM, 'r'), (FROM_NA, 'r')) + ((('_to_json', 'w'), ('_from_json', 'r')) if is_base else ()):
+            if meth in ms and not (is_base and meth in (TO, FROM)):
                 names = (TO, TO_NA) if side == 'w' else (FROM, FROM_NA)
-                sides[meth] = (side, _paths(ms[meth], names))
+                sides[meth] = (side, _paths(ms[meth], names, include_self=is_base))
         roles = set()
         for meth, (side, ps) in sides.items():
             for p in ps:
@@ -811,14 +866,14 @@ def _r9(ctx: Ctx, m: pf.Module, classes: Dict[str, ast.ClassDef]):
                     gtxt = []
                     vacuous = False
                     unknown = None
-                    for test, pol in p.conds:
-                        g = T.guard(test)
+                    for test, pol in _split_conds(T, p.conds):
+                        g = _type_guard(T, fn, test)
                         if g is not None:
-                            if _role(fn, g.subject) == role:
-                                admitted = admitted & (g.admitted if pol else (T.all - g.admitted))
+                            if g[0] == role:
+                                admitted = admitted & (g[1] if pol else (T.all - g[1]))
                                 gtxt.append(('' if pol else 'not ') + pf.nsrc(test))
-                                if pol and g.dead:
-                                    facts.append(f'branch `{pf.nsrc(test)}` is dead: {g.dead}')
+                                if pol and g[2]:
+                                    facts.append(f'branch `{pf.nsrc(test)}` is dead: {g[2]}')
                             continue
                         t, neg = test, not pol
                         if isinstance(t, ast.UnaryOp) and isinstance(t.op, ast.Not):
@@ -885,7 +940,7 @@ def run(ctx: Ctx) -> None:
                        'component converters, constructor roles, float tokens, null handling, freeze flags, call tokens, ndarray order); no repository code is run.')
     ctx.rule('R1', 'a HailType subclass overrides _convert_to_json[_na] iff it overrides _convert_from_json[_na] (encoding-only wrappers exempt)', 40)
     ctx.rule('R2', 'JSON object keys written == keys read, and each key is converted/parsed through the same component type', 13)
-    ctx.rule('R3', 'each wire key is filled from attribute A and fed to constructor parameter P with store(P) == source(A) (Locus, Interval)', 6)
+    ctx.rule('R3', 'each wire key is filled from attribute A and fed to constructor parameter P with store(P) == source(A); parameters of the type carried by the value (reference genome, point type) are passed from self (Locus, Interval)', 7)
     ctx.rule('R4', 'float writer emits for NaN/inf exactly strings the reader\'s float() parses; finite values pass through', 2)
     ctx.rule('R5', 'components are converted through the missing-aware _na variants on both sides; base _na wrappers map None<->None; '
                    'set elements / dict keys are parsed frozen and the freeze flag is forwarded', 30)
